@@ -1192,6 +1192,26 @@ class _EvalBuilder(_Builder):
         if i.frames and len(gens) == 1 and not gens[0].is_async and isinstance(n, ast.DictComp) and not self.pure:
             # a dict comprehension over a constant sequence whose filter and keys fold: the display with those keys (values stay terms)
             it0 = self.ev(gens[0].iter)
+            if it0[0] == "call" and it0[1][0] == "a" and it0[1][2] == "items" and not it0[2] and not it0[3] and it0[1][1][0] == "dictd" \
+                    and all(k_[0] == "c" for k_, _ in it0[1][1][1]) and not gens[0].ifs and isinstance(gens[0].target, ast.Tuple) and len(gens[0].target.elts) == 2:
+                # {K(k, v): V(k, v) for k, v in {<const>: t, ..}.items()}: entry by entry
+                ents_d = []
+                ok_d = True
+                save_ev = len(i.events)
+                try:
+                    for k_, v_ in it0[1][1][1]:
+                        i._assign(gens[0].target, ("tuple", (k_, v_)), n, quiet=True)
+                        kk_ = simplify(self.ev(n.key))
+                        if kk_[0] != "c":
+                            ok_d = False
+                            break
+                        ents_d = [e_ for e_ in ents_d if e_[0] != kk_] + [(kk_, self.ev(n.value))]
+                finally:
+                    frame.clear()
+                    frame.update(saved)
+                if ok_d:
+                    return ("dictd", tuple(ents_d))
+                del i.events[save_ev:]
             if it0[0] == "c" and isinstance(it0[1], tuple) and len(it0[1]) <= 64:
                 ents_c = []
                 ok_c = True
@@ -1245,6 +1265,8 @@ class _EvalBuilder(_Builder):
 
     def _fold_call(self, s: Sym) -> Sym:
         f, args, kw = s[1], s[2], s[3]
+        if not kw and f == N("getattr") and len(args) == 2 and args[1][0] == "c" and isinstance(args[1][1], str) and args[1][1].isidentifier():
+            return A(args[0], args[1][1])
         if not kw and f == N("getattr") and len(args) == 3 and args[1][0] == "c" and isinstance(args[1][1], str) and self.i.getattr_default_as_ifexp:
             # getattr(x, "name", d) is x.name when x has the attribute, else d
             cond_ = ("call", N("hasattr"), (args[0], args[1]), ())
@@ -1512,8 +1534,15 @@ class _EvalBuilder(_Builder):
             argmap[fn.args.vararg.arg] = C(())
         for p, a in zip(plist, pos):
             argmap[p] = a
+        named_ = set(plist) | {p_.arg for p_ in fn.args.kwonlyargs}
+        rest_kw = []
         for k, v in s[3]:
-            argmap[k] = v
+            if k in named_ or fn.args.kwarg is None:
+                argmap[k] = v
+            else:
+                rest_kw.append((C(k), v))
+        if fn.args.kwarg is not None:
+            argmap[fn.args.kwarg.arg] = ("dictd", tuple(rest_kw))     # f(.., a=x, b=y) with `**options`: options is {"a": x, "b": y}
         saved_consts = i.consts
         saved_mod = i.mod
         if transparent:
